@@ -806,6 +806,11 @@ fn run_session(folder: &std::path::Path, steps: &[Step], visible: [&str; 2]) -> 
             let r = match s {
                 Step::Open(f, t) => srv.open(FILES[*f], t),
                 Step::Full(f, t) => srv.change_full(FILES[*f], t),
+                // an edit whose name ends in "+noop" is sent with a second content change in the
+                // same notification that changes nothing (empty range at 0:0, empty text)
+                Step::Incr(f, r, t, name) if name.ends_with("+noop") => {
+                    srv.change(FILES[*f], &[Change::Range(*r, t.clone()), Change::Range((0, 0, 0, 0), String::new())])
+                }
                 Step::Incr(f, r, t, _) => srv.change(FILES[*f], &[Change::Range(*r, t.clone())]),
                 Step::Close(f) => srv.close(FILES[*f]),
                 Step::Sync => srv.sync(),
@@ -1384,6 +1389,37 @@ impl C15 {
         let alpha = alphabet();
         let mut ctx = Ctx::default();
         let mut idx = 0u64;
+        if phase.param["pattern"] == "noop-tail" {
+            // open, then one notification made of a range edit and a change that changes nothing
+            for disk in disks.iter().map(|i| DISKS[*i]) {
+                for f in [MAIN, MOD] {
+                    for t1 in menu(f) {
+                        for e1 in edits(f) {
+                            if sink.expired() {
+                                return;
+                            }
+                            if sink.mine(idx) {
+                                let notes = vec![
+                                    Step::Open(f, (*t1).to_owned()),
+                                    Step::Incr(f, e1.range, e1.text.to_owned(), format!("{}+noop", e1.name)),
+                                ];
+                                sink.visit(
+                                    idx,
+                                    || case_json(disk, &notes, gaps),
+                                    |s| {
+                                        let o = check_case(&mut ctx, disk, &notes, gaps);
+                                        ctx.flush(s);
+                                        o
+                                    },
+                                );
+                            }
+                            idx += 1;
+                        }
+                    }
+                }
+            }
+            return;
+        }
         if phase.param["pattern"] == "reopen" {
             // open, range edit, close, open (any text), range edit - on each file in turn
             for disk in disks.iter().map(|i| DISKS[*i]) {
@@ -1469,6 +1505,10 @@ impl Engine for C15 {
         v.push(phase_b(3, &[0], Gaps::Plain));
         v.push(phase_b(3, &[1], Gaps::Plain));
         v.push(phase_b(1, &all, Gaps::Settle));
+        v.push(Phase::new(
+            "(b) histories open - didChange made of a range edit and a content change that changes nothing (every text and edit of the menus), with / without a request between, all disks",
+            json!({"part": "b", "d": 2, "disks": [0, 1, 2], "gaps": "ends", "pattern": "noop-tail"}),
+        ));
         v.push(Phase::new(
             "(b) histories open - range edit - close - open - range edit of one file (every text and edit of the menus), no request at all / a request in every gap, disk ok/ok",
             json!({"part": "b", "d": 5, "disks": [0], "gaps": "ends", "pattern": "reopen"}),
